@@ -29,7 +29,7 @@ MODES = {
     'C10': ['nopanic', 'allbuiltins', 'builtins_np'],
     'C08': ['flat', 'datacodec'],
     'C11': ['debruijn', 'interner', 'named'],
-    'C16': ['shrinker'],
+    'C16': ['shrinker', 'proptest'],
     'C18': ['applyparam'],
 }
 
